@@ -31,6 +31,15 @@ theorem Setting.key_invariant {C G thr J} (h : Setting C G thr J) {x y : PS} (hx
   obtain ⟨g, hg, rfl⟩ := hxy
   exact (crysOpB_x2_invariant (List.all_eq_true.1 h.crys g hg) hx).symm
 
+/-- the driver's decidable test (`net …` answers its value for the shipped crystal, ops and
+    jumps) implies the hypotheses of all theorems below -/
+theorem settingB_sound {C : Crys} {G : List Op} {thr : Rat} {J : List PS} (h : settingB C G thr J = true) :
+    Setting C G thr J := by
+  simp only [settingB, Bool.and_eq_true, decide_eq_true_eq, List.all_eq_true, Bool.not_eq_true',
+    List.contains_iff_mem] at h
+  obtain ⟨⟨⟨⟨⟨h1, h2⟩, h3⟩, h4⟩, h5⟩, h6⟩ := h
+  exact ⟨h1, List.all_eq_true.2 h2, h3, h4, fun j hj => h5 j hj, h6⟩
+
 /-- `a ^ b` of valid states is valid -/
 theorem Valid.xor {n : Nat} {a b s : PS} (ha : Valid n a) (hb : Valid n b) (h : a.xor b = some s) :
     Valid n s := by
@@ -82,20 +91,22 @@ theorem generate_stars_complete_orbits {C G thr J} (h : Setting C G thr J) (N : 
       mem_generate_states.2 (genStates_G_closed hG h.nz h.valid h.closed g hg x (mem_generate_states.1 hxs))
     exact hpart.complete hG hV' hstar hx hys ⟨g, hg, rfl⟩
 
-/-- **C24, addition (partitions)**: when `S(N₁) += S(N₂)` succeeds (`N₁,N₂ ≥ 1`) its stars are an
-    orbit partition of its states — the old stars plus the stars of the new states; old and new
-    states are never related because `S(N₁)` is closed under the group. -/
+/-- **C24, addition (partitions)**: for `N₁,N₂ ≥ 1` the stars of `S(N₁) += S(N₂)` are an orbit
+    partition of its states — the old stars plus the stars of the new states; old and new states
+    are never related because `S(N₁)` is closed under the group. -/
 theorem iadd_stars_partition {C G thr J} (h : Setting C G thr J) {N1 N2 : Nat} {o1 o2 : Bool}
     (h1 : 1 ≤ N1) (h2 : 1 ≤ N2) {R : StarSet}
-    (hR : iadd C G thr (generate C G thr J N1 o1) (generate C G thr J N2 o2) = .ok R) :
-    OrbitPartition G R.states R.stars := by
+    (hR : iadd C G thr (generate C G thr J N1 o1) (generate C G thr J N2 o2) = .ok R)
+    (hne : R.states ≠ []) : OrbitPartition G R.states R.stars := by
   have hG := groupClosedB_sound h.grp
   have hA : ¬ (generate C G thr J N1 o1).nshells < 1 := by simp [generate]; omega
   have hB : ¬ (generate C G thr J N2 o2).nshells < 1 := by simp [generate]; omega
   unfold iadd at hR
   simp only [hA, hB, if_false] at hR
   split at hR
-  · cases hR
+  · -- nothing new: the star set is the old one with the shell count updated
+    cases hR
+    exact ((generate_stars_complete_orbits h N1 o1).2 hne).1
   rename_i hnew
   cases hR
   set A := generate C G thr J N1 o1 with hAdef
@@ -131,6 +142,41 @@ theorem iadd_stars_partition {C G thr J} (h : Setting C G thr J) {N1 N2 : Nat} {
     have hb' : b ∈ iaddNew A.states B.states :=
       (mem_sortByKey _ _ _).1 ((pnew.mem_iff b).2 ⟨S', hS', hb⟩)
     exact (mem_iaddNew.1 hb').2 ((pold.1.mem_iff b).2 ⟨S, hS, (pold.2 S hS a ha b).2 hab⟩)
+
+/-- orbit partitions are unique as sets of sets: two orbit partitions of lists with the same
+    members have, star for star, the same members -/
+theorem OrbitPartition.unique {G V} (hG : GroupLike G V) {L L' : List PS} {st st' : List (List PS)}
+    (hV : ∀ x ∈ L, V x) (hL : ∀ x, x ∈ L ↔ x ∈ L') (h : OrbitPartition G L st) (h' : OrbitPartition G L' st') :
+    ∀ S ∈ st, ∃ S' ∈ st', ∀ x, x ∈ S ↔ x ∈ S' := by
+  intro S hS
+  obtain ⟨x, hx⟩ := List.exists_mem_of_ne_nil S (h.ne S hS)
+  have hxL : x ∈ L := (h.mem_iff x).2 ⟨S, hS, hx⟩
+  obtain ⟨S', hS', hx'⟩ := (h'.mem_iff x).1 ((hL x).1 hxL)
+  have hV' : ∀ y ∈ L', V y := fun y hy => hV y ((hL y).2 hy)
+  refine ⟨S', hS', fun y => ⟨fun hy => ?_, fun hy => ?_⟩⟩
+  · have hyL : y ∈ L := (h.mem_iff y).2 ⟨S, hS, hy⟩
+    exact h'.complete hG hV' hS' hx' ((hL y).1 hyL) (h.rel S hS x hx y hy)
+  · have hyL' : y ∈ L' := (h'.mem_iff y).2 ⟨S', hS', hy⟩
+    exact h.complete hG hV hS hx ((hL y).2 hyL') (h'.rel S' hS' x hx' y hy)
+
+/-- **C24, addition = generation**: for `N₁,N₂ ≥ 1`, `S(N₁) + S(N₂)` has `N₁+N₂` shells, the
+    states of `generate(N₁+N₂)`, and star for star the same members as `generate(N₁+N₂)`. -/
+theorem iadd_eq_generate_sum {C G thr J} (h : Setting C G thr J) {N1 N2 : Nat} {o1 o2 : Bool}
+    (h1 : 1 ≤ N1) (h2 : 1 ≤ N2) :
+    ∃ R, iadd C G thr (generate C G thr J N1 o1) (generate C G thr J N2 o2) = .ok R ∧
+      R.nshells = N1 + N2 ∧ (∀ s, s ∈ R.states ↔ s ∈ (generate C G thr J (N1 + N2) o1).states) ∧
+      (R.states ≠ [] → ∀ S ∈ R.stars, ∃ S' ∈ (generate C G thr J (N1 + N2) o1).stars, ∀ x, x ∈ S ↔ x ∈ S') := by
+  have hG := groupClosedB_sound h.grp
+  obtain ⟨R, hR, hn, hs⟩ :=
+    iadd_states_eq_generate_sum (C := C) (G := G) (thr := thr) h.nz (o1 := o1) (o2 := o2) h1 h2
+  refine ⟨R, hR, hn, hs, fun hne => ?_⟩
+  have pR := iadd_stars_partition h h1 h2 hR hne
+  have hVR : ∀ x ∈ R.states, Valid C.nsites x := fun x hx =>
+    genStates_valid h.valid (mem_generate_states.1 ((hs x).1 hx))
+  have hne' : (generate C G thr J (N1 + N2) o1).states ≠ [] := by
+    obtain ⟨x, hx⟩ := List.exists_mem_of_ne_nil _ hne
+    exact List.ne_nil_of_mem ((hs x).1 hx)
+  exact pR.unique hG hVR hs ((generate_stars_complete_orbits h (N1 + N2) o1).2 hne').1
 
 /-- **C24, diffgenerate**: the difference star set (when defined and non-empty) is an orbit
     partition of exactly the endpoint differences `s₂ ^ s₁`. -/
